@@ -228,6 +228,25 @@ fn wrap(c: usize, scalar: &str, style: ScalarStyle, value: &str) -> (String, Vec
     (doc, evs)
 }
 
+/// the same contexts with the scalar as the last thing of the input and no final line break
+fn wrap_last(c: usize, scalar: &str, style: ScalarStyle, value: &str) -> Option<(String, Vec<Ev>)> {
+    let sc = |v: &str, s: ScalarStyle| Ev::Scalar { v: v.to_string(), style: s, aid: 0, tag: None };
+    let p = |v: &str| sc(v, ScalarStyle::Plain);
+    let me = sc(value, style);
+    let (doc, body): (String, Vec<Ev>) = match c {
+        0 => (scalar.to_string(), vec![me]),
+        1 => (format!("--- {scalar}"), vec![me]),
+        2 => (format!("key: {scalar}"), vec![Ev::MapStart(0, None), p("key"), me, Ev::MapEnd]),
+        3 => (format!("- x\n- {scalar}"), vec![Ev::SeqStart(0, None), p("x"), me, Ev::SeqEnd]),
+        5 => (format!("a:\n  b:\n    - {scalar}"), vec![Ev::MapStart(0, None), p("a"), Ev::MapStart(0, None), p("b"), Ev::SeqStart(0, None), me, Ev::SeqEnd, Ev::MapEnd, Ev::MapEnd]),
+        _ => return None,
+    };
+    let mut evs = vec![Ev::StreamStart, Ev::DocStart(c == 1)];
+    evs.extend(body);
+    evs.extend([Ev::DocEnd, Ev::StreamEnd]);
+    Some((doc, evs))
+}
+
 // ---- sanitising (constraints of the productions, by construction) ------------------------------
 
 fn is_flow_ind(c: char) -> bool {
@@ -320,6 +339,8 @@ pub fn sanitise(mut p: Program, ctx: usize) -> Option<Program> {
             // root (continuation at column 0) the conservative rule stays, because a line that
             // starts with `- `, `? `, `---`, `...` or `%` at column 0 is structure.
             let free_line_start = at_line_start && ctx_cont(ctx) > 0;
+            // contexts in which the scalar's first character sits at column 0 (root, block key)
+            let starts_at_col0 = ctx == 0 || ctx == 4;
             if free_line_start {
                 // ':' needs a following safe character; a leading '#' was removed above
                 loop {
@@ -337,14 +358,17 @@ pub fn sanitise(mut p: Program, ctx: usize) -> Option<Program> {
                         }
                         Some('-' | '?' | ':') => {
                             // allowed only when followed by a non-space "safe" character
-                            let ok = cs.len() > 1 && !(flow && is_flow_ind(cs[1])) && !(i == 0 && false);
-                            // keep it simple at continuation-line starts and before a separator
-                            if ok && !at_line_start && cs[1] != '-' && cs[1] != '?' && cs[1] != ':' {
+                            let ok = cs.len() > 1 && !(flow && is_flow_ind(cs[1]));
+                            // at column 0 of the root (`---x`, `--`, `-?`) keep it simple; anywhere
+                            // else `---`, `--- x`, `-?x`, `::x` are ordinary plain scalars
+                            let simple = cs.len() > 1 && cs[1] != '-' && cs[1] != '?' && cs[1] != ':';
+                            let tail_ok = !matches!(cs.last(), Some('-' | '?' | ':')) || cs.iter().all(|c| *c == '-');
+                            if ok && !at_line_start && (simple || (!starts_at_col0 && tail_ok && cs[1] != '#')) {
                                 break;
                             }
                             cs.remove(0);
                         }
-                        Some('.') if at_line_start || i == 0 => {
+                        Some('.') if at_line_start || starts_at_col0 => {
                             cs.remove(0);
                         }
                         _ => break,
@@ -381,6 +405,8 @@ fn lit_strategy() -> impl Strategy<Value = String> {
             "\u{2028}", "\u{feff}", "\u{a0}", "~", ".", "_", "/", "=", "a:b", "x#y", "--", "...", "---", "<<", "null", "1e3", "\u{fffd}",
         ]), 1..5).prop_map(|v| v.concat()),
         1 => "\\PC{1,4}",
+        // words made of the characters that are document markers / indicators at column 0 only
+        1 => proptest::sample::select(vec!["---", "...", "--", "....", "---x", "-?-", "::", "-:-", "?-", ".-."]).prop_map(|t| t.to_string()),
     ]
 }
 
@@ -454,6 +480,23 @@ pub fn check_sane(info: &mut CaseInfo, p: &Program, ctx: usize) -> CheckResult {
         St::Double => ScalarStyle::DoubleQuoted,
     };
     let (doc, expected) = wrap(ctx, &text, style, &value);
+    // the scalar as the very last thing of the input, with no line break after it
+    if let Some((doc, expected)) = wrap_last(ctx, &text, style, &value) {
+        for b in [Backend::Str, Backend::Buffered, Backend::Test(8)] {
+            let o = parse_with(b, &doc);
+            if let Some(e) = &o.error {
+                fail!("rejects-wellformed", "{} (scalar ends the input) / {}: {}; document: {doc:?}", CONTEXTS[ctx], b.name(), e.display);
+            }
+            let got = o.evs();
+            if got != expected {
+                let n = got.len().min(expected.len());
+                let at = (0..n).find(|i| got[*i] != expected[*i]).unwrap_or(n);
+                let cat = if matches!((got.get(at), expected.get(at)), (Some(Ev::Scalar { style: a, .. }), Some(Ev::Scalar { style: b, .. })) if a == b) { "value-differs" } else { "events-differ" };
+                fail!(cat, "{} (scalar ends the input) / {}: event #{at}: got {:?}, expected {:?}; document: {doc:?}", CONTEXTS[ctx], b.name(), got.get(at).map(|e| e.short()), expected.get(at).map(|e| e.short()));
+            }
+        }
+        info.class("variant:scalar-ends-the-input");
+    }
     // the same document with CR LF and with lone CR line breaks (a break is a break: the value is
     // the same); only when the program spans lines, and never for a document holding a literal CR
     let mut docs = vec![doc.clone()];
